@@ -431,4 +431,158 @@ theorem roundTo_idem (p : ℕ) (hp : 1 ≤ p) (emin : ℤ) (x : Dy) :
   · obtain ⟨k, hk, hk2, ht⟩ := roundTo_fits p emin x hm
     exact roundTo_val_of_fits p hp emin _ k _ hk2 ht hk
 
+/-! ## sign preservation and monotonicity -/
+
+theorem val_nonneg_iff (x : Dy) : 0 ≤ x.val ↔ 0 ≤ x.m := by
+  have := m_neg_iff x
+  constructor
+  · intro h; by_contra hc; have := this.mp (by omega); linarith
+  · intro h; by_contra hc; have := this.mpr (not_le.mp hc); omega
+
+theorem val_nonpos_iff (x : Dy) : x.val ≤ 0 ↔ x.m ≤ 0 := by
+  have := val_nonneg_iff (neg x)
+  rw [val_neg] at this
+  have h2 : (neg x).m = -x.m := rfl
+  rw [h2] at this
+  constructor
+  · intro h; have := this.mp (by linarith); omega
+  · intro h; have := this.mpr (by omega); linarith
+
+theorem roundTo_val_nonneg (p : ℕ) (emin : ℤ) (x : Dy) (h : 0 ≤ x.val) : 0 ≤ (roundTo p emin x).val :=
+  (val_nonneg_iff _).mpr (roundTo_sign_nonneg p emin x ((val_nonneg_iff x).mp h))
+
+theorem roundTo_val_nonpos (p : ℕ) (emin : ℤ) (x : Dy) (h : x.val ≤ 0) : (roundTo p emin x).val ≤ 0 :=
+  (val_nonpos_iff _).mpr (roundTo_sign_nonpos p emin x ((val_nonpos_iff x).mp h))
+
+/-- monotone on one grid (this is where ties-to-even is needed) -/
+theorem roundTo_mono_same (p : ℕ) (emin : ℤ) (x y : Dy) (hx : x.m ≠ 0) (hy : y.m ≠ 0)
+    (ht : tExp p emin x = tExp p emin y) (h : x.val ≤ y.val) :
+    (roundTo p emin x).val ≤ (roundTo p emin y).val := by
+  obtain ⟨kx, hkx, hx2, hx3, _⟩ := roundTo_spec p emin x hx
+  obtain ⟨ky, hky, hy2, hy3, _⟩ := roundTo_spec p emin y hy
+  rw [ht] at hkx hx2 hx3
+  have hT := two_zpow_pos (tExp p emin y)
+  rw [hkx] at hx2 hx3 ⊢
+  rw [hky] at hy2 hy3 ⊢
+  generalize (2:ℚ) ^ tExp p emin y = T at *
+  by_contra hc
+  have hlt : ky < kx := by
+    have := lt_of_mul_lt_mul_right (not_le.mp hc) hT.le
+    exact_mod_cast this
+  have hlt' : (ky:ℚ) + 1 ≤ kx := by exact_mod_cast hlt
+  have a1 := le_abs_self ((kx:ℚ) * T - x.val)
+  have b1 := neg_abs_le ((ky:ℚ) * T - y.val)
+  -- (kx − ky)·T ≤ T
+  have hle : ((kx:ℚ) - ky - 1) * T ≤ 0 := by nlinarith
+  have hle2 : (kx:ℚ) - ky - 1 ≤ 0 := by
+    by_contra h5
+    have := mul_pos (not_le.mp h5) hT
+    linarith
+  have hkk : (kx:ℚ) = ky + 1 := by linarith
+  have hkk' : kx = ky + 1 := by exact_mod_cast hkk
+  have ea : (kx:ℚ) * T - x.val = T / 2 := by rw [hkk] at a1 hx2 ⊢; nlinarith
+  have eb : (ky:ℚ) * T - y.val = -(T / 2) := by rw [hkk] at a1 hx2; nlinarith
+  have e1 := hx3 (by rw [ea, abs_of_pos (by linarith)]; ring)
+  have e2 := hy3 (by rw [eb, abs_neg, abs_of_pos (by linarith)]; ring)
+  omega
+
+/-- monotone on positive values -/
+theorem roundTo_mono_pos (p : ℕ) (hp : 1 ≤ p) (emin : ℤ) (x y : Dy) (hx : 0 < x.val) (h : x.val ≤ y.val) :
+    (roundTo p emin x).val ≤ (roundTo p emin y).val := by
+  have hy : 0 < y.val := lt_of_lt_of_le hx h
+  have hxm : x.m ≠ 0 := fun e => by rw [val_of_m_zero x e] at hx; exact lt_irrefl _ hx
+  have hym : y.m ≠ 0 := fun e => by rw [val_of_m_zero y e] at hy; exact lt_irrefl _ hy
+  have bx := val_binade x hxm
+  have bY := val_binade y hym
+  rw [abs_of_pos hx] at bx
+  rw [abs_of_pos hy] at bY
+  have hE : bexp x ≤ bexp y := by
+    have : (2:ℚ) ^ (bexp x - 1) < (2:ℚ) ^ bexp y := by linarith
+    have := two_zpow_lt_iff.mp this
+    omega
+  by_cases ht : tExp p emin x = tExp p emin y
+  · exact roundTo_mono_same p emin x y hxm hym ht h
+  · rw [tExp_eq, tExp_eq] at ht
+    have hE2 : bexp x < bexp y := by omega
+    have hty : tExp p emin y = bexp y - p := by rw [tExp_eq]; omega
+    have htx : tExp p emin x ≤ bexp y - 1 := by rw [tExp_eq]; omega
+    have hG : x.val ≤ ((1:ℤ):ℚ) * (2:ℚ) ^ (bexp y - 1) := by
+      have : (2:ℚ) ^ bexp x ≤ (2:ℚ) ^ (bexp y - 1) := two_zpow_le (by omega)
+      push_cast; linarith
+    have hG' : ((1:ℤ):ℚ) * (2:ℚ) ^ (bexp y - 1) ≤ y.val := by push_cast; linarith
+    have r1 := roundTo_no_cross_le' p emin x hxm 1 (bexp y - 1) htx hG
+    have r2 := roundTo_no_cross_ge' p emin y hym 1 (bexp y - 1) (by omega) hG'
+    linarith
+
+/-- (d) **monotonicity of round-to-nearest-even** (any precision `p ≥ 1`, any `emin`) -/
+theorem roundTo_mono (p : ℕ) (hp : 1 ≤ p) (emin : ℤ) (x y : Dy) (h : x.val ≤ y.val) :
+    (roundTo p emin x).val ≤ (roundTo p emin y).val := by
+  by_cases hx : 0 < x.val
+  · exact roundTo_mono_pos p hp emin x y hx h
+  · by_cases hy : y.val < 0
+    · have h1 : 0 < (neg y).val := by rw [val_neg]; linarith
+      have h2 : (neg y).val ≤ (neg x).val := by rw [val_neg, val_neg]; linarith
+      have := roundTo_mono_pos p hp emin (neg y) (neg x) h1 h2
+      rw [roundTo_neg, roundTo_neg, val_neg, val_neg] at this
+      linarith
+    · have := roundTo_val_nonpos p emin x (not_lt.mp hx)
+      have := roundTo_val_nonneg p emin y (not_lt.mp hy)
+      linarith
+
+/-! ## binary64 corollaries -/
+
+theorem round53_mono (x y : Dy) (h : x.val ≤ y.val) : (round53 x).val ≤ (round53 y).val :=
+  roundTo_mono 53 (by norm_num) (-1074) x y h
+
+theorem round53_neg (x : Dy) : round53 (neg x) = neg (round53 x) := roundTo_neg 53 (-1074) x
+
+theorem round53_idem (x : Dy) : (round53 (round53 x)).val = (round53 x).val :=
+  roundTo_idem 53 (by norm_num) (-1074) x
+
+/-- an integer-valued dyadic of magnitude at most `2^53` is representable -/
+theorem round53_int (x : Dy) (n : ℤ) (hn : |n| ≤ 2 ^ 53) (h : x.val = n) : (round53 x).val = n := by
+  have := roundTo_val_of_fits 53 (by norm_num) (-1074) x n 0 hn (by norm_num) (by simpa using h)
+  rw [← h]; exact this
+
+theorem round53_ofInt (n : ℤ) (hn : |n| ≤ 2 ^ 53) : (round53 (ofInt n)).val = n :=
+  round53_int _ n hn (val_ofInt n)
+
+/-- rounding never crosses a representable integer: `n ≤ x → n ≤ round53 x` for `|n| ≤ 2^53` -/
+theorem le_round53_of_int_le (x : Dy) (n : ℤ) (hn : |n| ≤ 2 ^ 53) (h : (n:ℚ) ≤ x.val) : (n:ℚ) ≤ (round53 x).val := by
+  have := round53_mono (ofInt n) x (by rw [val_ofInt]; exact h)
+  rwa [round53_ofInt n hn] at this
+
+theorem round53_le_of_le_int (x : Dy) (n : ℤ) (hn : |n| ≤ 2 ^ 53) (h : x.val ≤ (n:ℚ)) : (round53 x).val ≤ (n:ℚ) := by
+  have := round53_mono x (ofInt n) (by rw [val_ofInt]; exact h)
+  rwa [round53_ofInt n hn] at this
+
+/-- the algebraic facts about a rounding function that property theorems need (DESIGN.md §2.1) -/
+structure RoundSpec (rnd : Dy → Dy) : Prop where
+  /-- representable values (`g·2^s`, `|g| ≤ 2^53`, `s ≥ −1074`) are fixed -/
+  exact : ∀ (x : Dy) (g s : ℤ), |g| ≤ 2 ^ 53 → -1074 ≤ s → x.val = g * (2:ℚ) ^ s → (rnd x).val = x.val
+  mono : ∀ x y : Dy, x.val ≤ y.val → (rnd x).val ≤ (rnd y).val
+  /-- relative error in the normal range -/
+  relerr : ∀ x : Dy, (2:ℚ) ^ (-1022 : ℤ) ≤ |x.val| → |(rnd x).val - x.val| ≤ |x.val| * (2:ℚ) ^ (-(53:ℤ))
+  neg : ∀ x : Dy, (rnd (neg x)).val = -(rnd x).val
+  idem : ∀ x : Dy, (rnd (rnd x)).val = (rnd x).val
+
+/-- **`round53` satisfies `RoundSpec`** -/
+theorem round53_spec : RoundSpec round53 where
+  exact := fun x g s hg hs h => roundTo_val_of_fits 53 (by norm_num) (-1074) x g s hg hs h
+  mono := round53_mono
+  relerr := fun x hx => by
+    by_cases hm : x.m = 0
+    · rw [val_of_m_zero x hm] at hx
+      have := two_zpow_pos (-1022)
+      rw [abs_zero] at hx; linarith
+    · exact round53_relerr x (by have := lt_bexp_of_le x hm _ hx; omega)
+  neg := fun x => by rw [round53_neg, val_neg]
+  idem := round53_idem
+
+/-! ## non-vacuity -/
+/-- `2^53 + 1` is a tie and rounds to the even neighbour `2^53 = 2^52·2` -/
+example : (round53 ⟨2 ^ 53 + 1, 0⟩).m = 2 ^ 52 ∧ (round53 ⟨2 ^ 53 + 1, 0⟩).e = 1 := by decide +kernel
+example : tExp 53 (-1074) ⟨2 ^ 53 + 1, 0⟩ = 1 := by decide +kernel
+example : bexp ⟨3, -2⟩ = 0 := by decide +kernel
+
 end GeoVerif.Dy
